@@ -5,6 +5,7 @@ CONSTANTS
   ReadRule = "written"
   UnsetSpace <- AllUnset
   ScalarRule = "fill_is_unset"
+  ListRule = "own_file"
   DfltSpace <- AllDflt
   LayoutSpace <- Layouts
   D = 100
